@@ -53,6 +53,94 @@ def names(tier):
                         yield "/" + body
 
 
+# --- names in the form an HTTP client sends them: percent escapes -------------------------------------
+# The router does not decode the URL path, so a :name* capture hands over '%2e%2e' as it stands; the
+# property covers every name a client can supply, whatever decoding the function applies on the way.
+# The family is generated, not listed: every character of the dangerous plain segments and separators
+# spelled literally or as an escape (lower/upper hex digits), escapes of escapes ('%252e'), overlong
+# and non-standard encodings of '.' and '/', escaped unusual characters, and malformed escapes.
+
+def _spellings(text):
+    """every way to write ``text`` with each character literal or percent-escaped (both hex cases)"""
+    per_char = []
+    for ch in text:
+        low = "".join("%%%02x" % b for b in ch.encode("utf-8"))
+        alts = [ch, low]
+        if low.upper() != low:
+            alts.append(low.upper())
+        per_char.append(alts)
+    return ["".join(c) for c in itertools.product(*per_char)]
+
+
+def _escaped_only(text):
+    return [s for s in _spellings(text) if s != text]
+
+
+ENC_DOTS = _escaped_only("..") + _escaped_only(".") + \
+    ["%252e%252e", "%252e", ".%252e", "%c0%ae%c0%ae", "%c0%ae", "%u002e%u002e", "%uff0e%uff0e", "%ef%bc%8e%ef%bc%8e",
+     "%2e%2e%00", "%2e%2e%20", "%2e%2e;x", "%2e%2e%2e", "%2e%2e."]
+ENC_OTHER = ["my%20file", "%00", "a%00", "%7e", "%7E", "%43%3a", "C%3a", "%", "%2", "%zz", "%%32%65", "a+b", "%61", "%e2%88%95", "%0a", "%09"]
+ENC_SEGS = ENC_DOTS + ENC_OTHER
+PLAIN_SEGS = ["..", ".", "", "a"]
+ENC_SEPS = ["%2f", "%2F", "%5c", "%5C", "%252f", "%c0%af", "%u2215"]
+ENC_PREFIXES = ["%2f", "%2F", "%2f%2f", "/%2f", "%5c", "%5c%5c", "C:%2f", "C%3a/", "C%3a%5c", "%7e/", "%7e%2f"]
+ENC_DOTS_SMALL = ["%2e%2e", ".%2e", "%2E%2E", "%2e", "%252e%252e"]
+ENC_SEGS_SMALL = ENC_DOTS_SMALL + ["..", "", "a", "%00", "my%20file"]
+ENC_SEPS_SMALL = ["/", "\\", "%2f", "%5c"]
+
+
+def encoded_names(tier):
+    """names with percent escapes: <=N segments of which at least one (or a separator, or the prefix) is escaped"""
+    n_full, n_small = (2, 3) if tier == "quick" else (3, 4)
+
+    def emit(name):
+        return "%" in name
+
+    all_segs = ENC_SEGS + PLAIN_SEGS
+    all_seps = ["/", "\\"] + ENC_SEPS
+    all_pre = PREFIXES + ENC_PREFIXES
+    few_seps = ["/", "%2f", "%5c"]
+    few_pre = ["", "/", "%2f"]
+    for n in range(1, n_full + 1):
+        for segs in itertools.product(all_segs, repeat=n):
+            # <=2 segments: every separator behind a few prefixes and every prefix with a few separators;
+            # longer: a few of both
+            if n <= 2:
+                combos = [(sp, few_pre) for sp in all_seps if sp not in few_seps] + [(sp, all_pre) for sp in few_seps]
+            else:
+                combos = [(sp, few_pre) for sp in few_seps]
+            for sep, pres in (combos if n > 1 else [("/", all_pre)]):
+                body = sep.join(segs)
+                for p in pres:
+                    if emit(p + body):
+                        yield p + body
+                # the same with a trailing separator (a directory request)
+                for s in ("/", "%2f"):
+                    if emit(body + s):
+                        yield body + s
+    for n in range(n_full + 1, n_small + 1):
+        for segs in itertools.product(ENC_SEGS_SMALL, repeat=n):
+            for seps in itertools.product(ENC_SEPS_SMALL, repeat=n - 1):
+                body = segs[0]
+                for s, sg in zip(seps, segs[1:]):
+                    body += s + sg
+                for p in few_pre:
+                    if emit(p + body):
+                        yield p + body
+
+
+def root_relative_encoded(root):
+    """the root-derived absolute names (root, inside, parent, siblings) with their separators and dots escaped"""
+    out = []
+    for name in root_relative_names(root):
+        for a, b in (("/", "%2f"), ("/", "%2F"), ("\\", "%5c"), (".", "%2e")):
+            if a in name:
+                out.append(name.replace(a, b))
+                out.append(name[0] + name[1:].replace(a, b))
+        out.append("".join("%%%02x" % b for b in name.encode("utf-8")))
+    return [n for n in out if "%" in n]
+
+
 def root_relative_names(root):
     """absolute names built from the root's own absolute path: the root itself, paths inside it,
     and SIBLINGS whose name merely starts with the root's name (string prefix, not path prefix)"""
@@ -89,7 +177,10 @@ def verdict(root, name, fn):
         if inside:
             return None, ("root" if r == R else "below")
         norm = name.replace("\\", "/")
-        if norm.startswith("/"):
+        if "%" in name:
+            # (names with '%' entered the alphabet later; one class for all of them)
+            sig = "name with percent escapes escapes root"
+        elif norm.startswith("/"):
             sig = "absolute name escapes root"
         else:
             sig = "relative name escapes root: first segment %r" % norm.split("/")[0]
@@ -114,12 +205,17 @@ def work(arg):
     n = 0
     distinct_results = set()
     import itertools as _it
-    for i, name in enumerate(_it.chain(root_relative_names(root), names(_TIER))):
+    escaped = False
+    for i, name in enumerate(_it.chain(root_relative_names(root), names(_TIER), [None],
+                                       root_relative_encoded(root), encoded_names(_TIER))):
+        if name is None:
+            escaped = True   # everything after the marker carries percent escapes
+            continue
         if i % nparts != k:
             continue
         n += 1
         bad, cls = verdict(root, name, _FN)
-        counts.inc(cls)
+        counts.inc("escaped:" + cls if escaped else cls)
         if bad is not None:
             oracle, sig, msg = bad
             key = (oracle, sig)
@@ -152,6 +248,32 @@ def router_captures(tier):
                     if cap is None:
                         cap = ""
                     out.append((path, cap))
+    return n_paths, out
+
+
+def router_captures_encoded(tier):
+    """the router part with percent escapes in the URL: the router matches the raw path, the capture is the raw text"""
+    from mpgameserver.http_server import Router, Route
+    router = Router()
+    router.registerRoutes([Route("r1", "GET", "/static/:path*", None), Route("r2", "GET", "/:path*", None)])
+    segs_all = ENC_SEGS + ENC_SEPS + ["..%2f..", "..%5c..", "%2e%2e%2f%2e%2e", "..", "", "a", "static", "etc", "passwd"]
+    segs_few = ENC_SEGS_SMALL + ["%2f", "static"]
+    plan = [(segs_all, 1), (segs_all, 2), (segs_few, 3)] + ([] if tier == "quick" else [(segs_few, 4)])
+    out = []
+    n_paths = 0
+    for alphabet, n in plan:
+        for segs in itertools.product(alphabet, repeat=n):
+            body = "/".join(segs)
+            if "%" not in body:
+                continue
+            for pre in ("/", "//", "/static/", "/static//", "/static%2f", "/%2f", "/static/%2f"):
+                for post in ("", "/"):
+                    path = pre + body + post
+                    n_paths += 1
+                    res = router.getRoute("GET", path)
+                    if res is None:
+                        continue
+                    out.append((path, res[1].get("path") or ""))
     return n_paths, out
 
 
@@ -196,6 +318,7 @@ def run(tier, seed):
     work_init(tier)
     n_paths, caps = router_captures(tier)
     cap_names = sorted(set(c for _, c in caps))
+    n_paths_enc, caps_enc = router_captures_encoded(tier)
     from mpgameserver.http_server import Router, Route
     router = Router()
     router.registerRoutes([Route("r1", "GET", "/static/:path*", None), Route("r2", "GET", "/:path*", None)])
@@ -212,10 +335,21 @@ def run(tier, seed):
                     res = None
                 if res is not None:
                     extra.append((url, res[1].get("path") or ""))
-        for path, cap in caps + extra:
+        for name in root_relative_encoded(root):
+            for url in ("/static/" + name, "/static" + name, "/" + name, name):
+                if not url.startswith("/"):
+                    continue
+                n_paths_enc += 1
+                try:
+                    res = router.getRoute("GET", url)
+                except Exception:
+                    res = None
+                if res is not None:
+                    extra.append((url, res[1].get("path") or ""))
+        for path, cap in caps + caps_enc + extra:
             total += 1
             bad, cls = verdict(root, cap, _FN)
-            classes.inc("router:" + cls)
+            classes.inc(("router-escaped:" if "%" in path else "router:") + cls)
             if bad is not None:
                 oracle, sig, msg = bad
                 key = (oracle, sig)
@@ -237,6 +371,14 @@ def run(tier, seed):
         "router_paths_tried": n_paths,
         "router_captures": len(caps),
         "router_distinct_captures": len(cap_names),
+        "escaped_rule": "names with percent escapes (the router hands the raw URL path over): every literal/escaped spelling of '..' and '.' in both hex cases, double escapes, overlong and %%u forms, "
+                        "escaped NUL/space/tilde/drive prefix, malformed escapes (%d segments), joined by / \\ or escaped separators %r, behind plain and escaped prefixes %r, <=%d segments "
+                        "(<=%d over %r); each root's own absolute names with separators or dots escaped; the same through :path* captures (<=2 segments, <=%d over the short list)" % (
+                            len(ENC_SEGS), ENC_SEPS, ENC_PREFIXES, 2 if tier == "quick" else 3, 3 if tier == "quick" else 4, ENC_SEGS_SMALL, 3 if tier == "quick" else 4),
+        "escaped_names_evaluated": sum(v for k, v in classes.items() if k.startswith("escaped:")),
+        "router_escaped_paths_tried": n_paths_enc,
+        "router_escaped_captures": len(caps_enc),
+        "router_escaped_distinct_captures": len(set(c for _, c in caps_enc)),
         "exhaustive": True,
         "samples": core.safe_samples(lambda: _samples(tier, caps)),
     }
